@@ -78,6 +78,16 @@ func buildTvDag(kids map[string][]string, order []string, alias string) *tvDag {
 			}
 			b = detBytes("raw leaf "+n, size)
 			codec = cid.Raw
+			if i == 3 && len(kids[order[0]])%2 == 1 {
+				// an identity CID: the block's bytes are inlined in the link; it is a block of the DAG like any other
+				b = detBytes("inline "+n, 11)
+				ih, _ := mh.Sum(b, mh.IDENTITY, -1)
+				c := cid.NewCidV1(cid.Raw, ih)
+				d.cids[n] = c
+				d.data[c.KeyString()] = b
+				d.names[c.KeyString()] = n
+				continue
+			}
 		} else {
 			b = cborHead(4, uint64(1+len(kids[n])))
 			b = append(b, cborHead(0, uint64(i))...) // distinguishes nodes with equal link lists
@@ -372,6 +382,12 @@ func runTraversalCase(c *tvCase, dir string, rep *Report) []tvViol {
 				}
 				if !c.Err && fmt.Sprint(wloads) != fmt.Sprint(c.Loads) {
 					rep.drift(fmt.Sprintf("kids %v opt %s: model loads %v, root module loaded %v", c.Kids, canon(c.Opt), c.Loads, wloads))
+				}
+				// ... and the blocks the traversal visits do not depend on how the writer gets hold of them: where the
+				// engine's load sequence is the specification's (checked above on the recording link system), the archive
+				// holds its first occurrences
+				if !c.Err && len(dags) == 1 && fmt.Sprint(names) != fmt.Sprint(firstOcc(c.Loads)) {
+					add("root.SelectiveCar.Write/blocks-vs-traversal", fmt.Sprintf("archive holds %v, the traversal visits %v", names, firstOcc(c.Loads)))
 				}
 				for i := range names {
 					for j := 0; j < i; j++ {
